@@ -99,11 +99,15 @@ func (u *PhaseUnwrapper) UnwrapInPlace(data *[]RawType) {
 		thisstep := int16(v - u.lastVal)
 		u.lastVal = v
 
-		// Short-term unwrapping
-		if thisstep > u.upperStepLim {
+		// Short-term unwrapping. With a bias of more than half a ϕ0 (e.g., the ROACH settings)
+		// a step can be more than one ϕ0 away from the allowed range, so repeat as needed.
+		for thisstep > u.upperStepLim {
 			u.offset -= u.twoPi
-		} else if thisstep < u.lowerStepLim {
+			thisstep -= int16(u.twoPi)
+		}
+		for thisstep < u.lowerStepLim {
 			u.offset += u.twoPi
+			thisstep += int16(u.twoPi)
 		}
 
 		// Long-term unwrapping means keeping baseline at same ϕ0.
